@@ -461,6 +461,37 @@ def run(c):
         c.count(("lf", n, na, tp, nst, kind), nontrivial=n >= 2)
         hist["lf"] = hist.get("lf", 0) + 1
 
+    # ======================================================================= tie: reb_whfast_interaction_step (Jacobi coordinates)
+    for case in range(40 * T):
+        rng = c.rng.fork()
+        n = rng.choice([1, 2, 2, 3, 3, 4, 5, 8, 16])
+        ps, kind = gen_parts(rng, n)
+        for p_ in ps:
+            p_[0] = abs(p_[0]) if p_[0] != 0 else 0.0
+        if ps[0][0] == 0:
+            ps[0][0] = 1.0
+        G = rng.choice([1.0, rng.loguniform(1e-3, 1e3)])
+        soft = rng.choice([0.0, 0.0, 0.05])
+        simW = mk(ps, integrator="whfast", G=G)
+        simW.softening = soft
+        simW.ri_whfast.coordinates = "jacobi"
+        simW.dt = dtw = rng.uniform(1e-3, 1e-1)
+        if clib.reb_integrator_whfast_init(ctypes.byref(simW)):
+            continue
+        clib.reb_integrator_whfast_from_inertial(ctypes.byref(simW))
+        simW.gravity_ignore = 1
+        clib.reb_simulation_update_acceleration(ctypes.byref(simW))
+        pj = simW.ri_whfast._p_jh
+        toks = ["whint", str(n), d2h(G), d2h(soft), d2h(dtw), d2h(ps[0][0]), d2h(simW.particles[0].ax), d2h(simW.particles[0].ay), d2h(simW.particles[0].az)]
+        for i in range(1, n):
+            q, pj_i = simW.particles[i], pj[i]
+            toks += [d2h(v) for v in (q.m, q.ax, q.ay, q.az, pj_i.x, pj_i.y, pj_i.z, pj_i.vx, pj_i.vy, pj_i.vz)]
+        clib.reb_whfast_interaction_step(ctypes.byref(simW), ctypes.c_double(dtw))
+        got = [v for i in range(1, n) for v in (pj[i].vx, pj[i].vy, pj[i].vz)]
+        lines.append(" ".join(toks)); expect.append(got); meta.append(("whint", n, -1, 0))
+        c.count(("whint", n, kind, soft != 0), nontrivial=n >= 3)
+        hist["whint"] = hist.get("whint", 0) + 1
+
     c.log("running %d model lines through drv_c04" % len(lines))
     out = run_driver(exe, lines)
     st = {"bitwise_equal": 0, "within_tol": 0, "disagree": 0}
@@ -1270,6 +1301,77 @@ def run(c):
             viol.append(("FC04a:trace-rejected-step-com", "TRACE: centre of mass jumps by %d x dt x V_com (rejected steps) in a run with a merging collision" % sig, rep))
         elif dRm > 1e-9:
             viol.append(("merge-run:COM:" + it, "centre of mass jumps by %.3g across a merging collision (%s)" % (dRm, it), rep))
+    # ======================================================================= public entry points (extracted from rebound.h / the Python classes)
+    import re as _re
+    hdr = open(os.path.join(REPO, "src", "rebound.h")).read()
+    entry = set(_re.findall(r"^DLLEXPORT[^;(]*?\b(reb_simulation_(?:energy|angular_momentum|com|com_range|jacobi_com|move_to_hel|move_to_com|step|steps|integrate|synchronize)|reb_particle_com_of_pair|"
+                            r"reb_collision_resolve_merge|reb_whfast_(?:interaction|jump|kepler|com)_step|reb_integrator_whfast_(?:from_inertial|to_inertial|init))\s*\(", hdr, flags=_re.M))
+    pysim = open(os.path.join(REPO, "rebound", "simulation.py")).read()
+    pymeth = set(_re.findall(r"^    def (energy|angular_momentum|com|move_to_com|move_to_hel|integrate|step|steps|synchronize)\(", pysim, flags=_re.M))
+    pymeth |= {"Particle." + m_ for m_ in _re.findall(r"^    def (jacobi_com)\(", open(os.path.join(REPO, "rebound", "particle.py")).read(), flags=_re.M)}
+    used = {"reb_simulation_energy", "reb_simulation_angular_momentum", "reb_simulation_com", "reb_simulation_com_range", "reb_collision_resolve_merge",
+            "reb_simulation_steps", "reb_simulation_step", "reb_simulation_integrate", "reb_simulation_synchronize", "reb_simulation_move_to_com",
+            "energy", "angular_momentum", "com", "move_to_com", "integrate", "steps", "synchronize"} if (hist.get("diag") and ran and hist.get("merge")) else set()
+    if prim_hist:
+        used |= {"reb_whfast_interaction_step", "reb_whfast_kepler_step", "reb_whfast_com_step", "reb_whfast_jump_step", "reb_integrator_whfast_from_inertial",
+                 "reb_integrator_whfast_to_inertial", "reb_integrator_whfast_init"}
+    # the remaining ones, each against the fsum oracle
+    for case in range(6):
+        rng = c.rng.fork()
+        n = rng.randint(2, 7)
+        ps, _k = gen_parts(rng, n)
+        for p_ in ps:
+            p_[0] = abs(p_[0]) + 1e-3
+        simE = mk(ps)
+        # reb_particle_com_of_pair / reb_simulation_com_range(first,last) / Particle.jacobi_com
+        a_, b_ = rng.randint(0, n - 1), rng.randint(1, n)
+        lo, hi = min(a_, b_ - 1), max(a_ + 1, b_)
+        cr = simE.com(first=lo, last=hi)
+        Mr = math.fsum(p_[0] for p_ in ps[lo:hi])
+        okc = abs(cr.m - Mr) <= 8 * n * EPS * Mr
+        for cc, g_ in enumerate((cr.x, cr.y, cr.z, cr.vx, cr.vy, cr.vz)):
+            w_ = math.fsum(p_[0] * p_[1 + cc] for p_ in ps[lo:hi]) / Mr
+            sc_ = math.fsum(abs(p_[0] * p_[1 + cc]) for p_ in ps[lo:hi]) / Mr
+            okc = okc and abs(g_ - w_) <= 32 * (n + 4) * EPS * sc_
+        if not okc:
+            viol.append(("entry:com_range", "sim.com(first=%d,last=%d) differs from the mass-weighted mean of that range" % (lo, hi), dict(ps=ps, first=lo, last=hi)))
+        used |= {"reb_simulation_com_range"}
+        clib.reb_particle_com_of_pair.restype = rebound.Particle
+        pp_ = clib.reb_particle_com_of_pair(simE.particles[0], simE.particles[1])
+        w_ = (ps[0][0] * ps[0][1] + ps[1][0] * ps[1][1]) / (ps[0][0] + ps[1][0])
+        if not (abs(pp_.m - (ps[0][0] + ps[1][0])) <= 4 * EPS * pp_.m and abs(pp_.x - w_) <= 16 * EPS * (abs(ps[0][1]) + abs(ps[1][1]))):
+            viol.append(("entry:com_of_pair", "reb_particle_com_of_pair differs from the two-body centre of mass", dict(ps=ps[:2])))
+        used.add("reb_particle_com_of_pair")
+        k_ = rng.randint(1, n - 1)
+        jc = simE.particles[k_].jacobi_com
+        w_ = math.fsum(p_[0] * p_[1] for p_ in ps[:k_]) / math.fsum(p_[0] for p_ in ps[:k_])
+        if not abs(jc.x - w_) <= 32 * (n + 4) * EPS * math.fsum(abs(p_[0] * p_[1]) for p_ in ps[:k_]) / math.fsum(p_[0] for p_ in ps[:k_]):
+            viol.append(("entry:jacobi_com", "Particle.jacobi_com differs from the centre of mass of the particles below it", dict(ps=ps, index=k_)))
+        used |= {"reb_simulation_jacobi_com", "Particle.jacobi_com"}
+        # move_to_hel: particle 0 at rest at the origin, all relative vectors unchanged, energy by the frame-shift formula with (R,V) = particle 0
+        E0_ = simE.energy(); simE.step if False else None
+        simE.move_to_hel()
+        q0 = simE.particles[0]
+        okh = (q0.x, q0.y, q0.z, q0.vx, q0.vy, q0.vz) == (0.0,) * 6
+        for i_ in range(1, n):
+            qi = simE.particles[i_]
+            for cc, g_ in enumerate((qi.x, qi.y, qi.z, qi.vx, qi.vy, qi.vz)):
+                okh = okh and abs(g_ - (ps[i_][1 + cc] - ps[0][1 + cc])) <= 4 * EPS * (abs(ps[i_][1 + cc]) + abs(ps[0][1 + cc]))
+        V0 = ps[0][4:7]
+        wantE = math.fsum([E0_, -sum(V0[cc] * math.fsum(p_[0] * p_[4 + cc] for p_ in ps) for cc in range(3)), 0.5 * math.fsum(p_[0] for p_ in ps) * sum(v * v for v in V0)])
+        Es_ = abs(E0_) + math.fsum(abs(0.5 * p_[0] * (p_[4] ** 2 + p_[5] ** 2 + p_[6] ** 2)) for p_ in ps) + 0.5 * math.fsum(p_[0] for p_ in ps) * sum(v * v for v in V0) + sum(abs(V0[cc]) * math.fsum(abs(p_[0] * p_[4 + cc]) for p_ in ps) for cc in range(3))
+        scx = max(abs(v) for p_ in ps for v in p_[1:4]); dmin = min(math.sqrt(sum((ps[i_][1 + cc] - ps[j_][1 + cc]) ** 2 for cc in range(3))) for i_ in range(n) for j_ in range(i_ + 1, n))
+        if not okh or not abs(simE.energy() - wantE) <= 64 * (n + 4) * EPS * Es_ * (1 + scx / dmin):
+            viol.append(("entry:move_to_hel", "move_to_hel: particle 0 not at rest at the origin, relative vectors changed, or the energy does not follow the frame-shift formula", dict(ps=ps)))
+        used |= {"reb_simulation_move_to_hel", "move_to_hel"}
+        simS = mk(ps, integrator="leapfrog"); simS.dt = 1e-6; simS.step(); used.add("step")
+    want_entry = set(entry) | pymeth
+    c.cov["entry_points_extracted"] = sorted(want_entry)
+    c.cov["entry_points_exercised"] = len(want_entry & used)
+    if len(entry) < 20 or len(pymeth) < 10:
+        c.broken.append("entry-point extraction found only %d C functions / %d Python methods" % (len(entry), len(pymeth)))
+    if want_entry - used:
+        c.broken.append("entry points not exercised in this run: " + ", ".join(sorted(want_entry - used)))
     c.cov["merge_runs_with_a_merge"] = nm
     dims["histories: integrator switched on one simulation"] = sw_runs
     dims["histories: pericentre switches (TRACE, all peri modes)"] = sum(peri_hits.values())
